@@ -45,7 +45,8 @@ META = {
 
 NONE = 99
 NAN = -1
-RAT_OPS = {"mean", "var", "std", "moment", "median", "quantile", "nanmean", "nanvar", "nanstd", "nanmedian"}
+RAT_OPS = {"mean", "var", "std", "moment", "median", "quantile", "nanmean", "nanvar", "nanstd", "nanmedian",
+           "nanquantile", "nanpercentile"}      # the last two are used by C32
 SQUARED = {"std", "nanstd"}
 DDOF_OPS = {"var", "std", "nanvar", "nanstd"}
 SE_VARIANTS = ["none", "2", "3", "dict"]
@@ -300,6 +301,8 @@ def classify(case, chunks, clause, variant):
             return "argtopk:k>=n:blocks"
         if abs(case["k"]) > nax and clause == "Meta":
             return "topk:k>n:meta"
+    if fam == "quant" and zero and len(case["ax"]) >= 2 and len(case["ax"]) < nd and clause == "UnexpectedRaise":
+        return "quant:multi-axis:zero-chunk"
     if op == "nanmedian" and zero and clause == "UnexpectedRaise":
         return "nanmedian:zero-chunk"
     if fam == "cum":
@@ -594,7 +597,7 @@ def run(ctx):
         c["c"]["chunkings"] = shared.setdefault(key, c["c"]["chunkings"])
     counts = [len(c["c"]["chunkings"]) for c in cases]
     total_pairs = sum(counts)
-    cap = ctx.pick(9000, 120000)
+    cap = ctx.pick(9000, 100000)
     sampled = total_pairs > cap
     picks = sorted(ctx.rng.sample(range(total_pairs), cap)) if sampled else range(total_pairs)
     items, ci, base = [], 0, 0
@@ -681,7 +684,7 @@ def selftest(ctx):
     cases, _ = enumerate_cases(ctx, fills, orders="{3}", label="selftest cases", qforms=QFORMS_Q)
     known = set(ctx.known)
 
-    def items_for(pred, limit=70):
+    def items_for(pred, limit=45):
         pairs = [(c, ch) for c in cases if pred(c["c"]) for ch in c["c"]["chunkings"]
                  if not has_zero_chunk(c["c"], ch)]
         pairs = rng.sample(pairs, min(limit, len(pairs)))
